@@ -73,7 +73,8 @@ def gen_case(r, k, nmol=None, nt=None, tensor=None):
             # weak couplings split off into the Hamiltonian's remainder coupling: by the user (plain cases) or by the combined
             # Redfield-Foerster tensor whose effective Hamiltonian is supplied (tensor cases)
             "remainder": (("cRF" if tensor else "removed") if (nmol >= 2 and k % 4 == 3) else None),
-            "intpos": bool(geometry and k % 3 != 1)}
+            "intpos": bool(geometry and k % 3 != 1),
+            "ground": [float(r.choice([0.0, 150.0, 200.0, 300.0])) if k % 3 == 2 else 0.0 for _ in range(nmol)]}
 
 
 def rotation(seed, det):
@@ -121,7 +122,8 @@ def build(c, dip_scale=1.0, rot=None, perm=None):
     with qr.energy_units("1/cm"):
         for i in order:
             cf = qr.CorrelationFunction(time, dict(ftype="OverdampedBrownian", reorg=c["reorgs"][i], cortime=c["cortime"], T=c["T"]))
-            m = qr.Molecule([0.0, c["energies"][i]])
+            g0 = float(c.get("ground", [0.0] * c["nmol"])[i])           # a non-zero electronic ground-state energy of the molecule
+            m = qr.Molecule([g0, g0 + c["energies"][i]])
             d = numpy.array(c["dipoles"][i], dtype=float) * dip_scale
             pos = numpy.array(c["positions"][i], dtype=float)
             if rot is not None:
